@@ -83,8 +83,11 @@ func BloomParams(fpRate uint) (bitsPerElem uint, hashLocs uint) {
 }
 
 // VisitedTracker tracks which CIDs have been seen during DAG traversal.
-// Implementations use c.Hash() (multihash bytes) as the key, so CIDv0
-// and CIDv1 of the same content are treated as the same entry.
+// Implementations use the codec and c.Hash() (multihash bytes) as the
+// key (see [trackerKey]), so CIDv0 and CIDv1 of the same content are
+// treated as the same entry, while the same bytes addressed under two
+// codecs (e.g. raw and dag-pb) are distinct entries: they decode to
+// different links, so having walked one says nothing about the other.
 //
 // Implementations may be exact ([MapTracker]) or probabilistic
 // ([BloomTracker]). Probabilistic implementations must keep the false
@@ -101,6 +104,15 @@ type VisitedTracker interface {
 	Visit(c cid.Cid) bool
 	// Has returns true if the CID was previously visited.
 	Has(c cid.Cid) bool
+}
+
+// trackerKey returns the key under which [MapTracker] and [BloomTracker]
+// record c: varint(codec) followed by the multihash bytes.
+func trackerKey(c cid.Cid) []byte {
+	h := c.Hash()
+	key := make([]byte, 0, binary.MaxVarintLen64+len(h))
+	key = binary.AppendUvarint(key, c.Type())
+	return append(key, h...)
 }
 
 var (
@@ -124,7 +136,7 @@ func NewMapTracker() *MapTracker {
 }
 
 func (m *MapTracker) Visit(c cid.Cid) bool {
-	key := string(c.Hash())
+	key := string(trackerKey(c))
 	if _, ok := m.set[key]; ok {
 		m.deduplicated++
 		return false
@@ -134,7 +146,7 @@ func (m *MapTracker) Visit(c cid.Cid) bool {
 }
 
 func (m *MapTracker) Has(c cid.Cid) bool {
-	_, ok := m.set[string(c.Hash())]
+	_, ok := m.set[string(trackerKey(c))]
 	return ok
 }
 
@@ -253,7 +265,7 @@ func NewBloomTracker(expectedItems uint, fpRate uint) (*BloomTracker, error) {
 }
 
 func (bt *BloomTracker) Has(c cid.Cid) bool {
-	key := []byte(c.Hash())
+	key := trackerKey(c)
 	// Iterate oldest to newest: frequently-repeated CIDs (e.g. shared
 	// sub-DAGs across many pins) land in the earliest filter, so
 	// checking old-first finds them with fewer probes. The alternative
@@ -269,7 +281,7 @@ func (bt *BloomTracker) Has(c cid.Cid) bool {
 }
 
 func (bt *BloomTracker) Visit(c cid.Cid) bool {
-	key := []byte(c.Hash())
+	key := trackerKey(c)
 
 	// Check earlier blooms for the CID (oldest to newest, same
 	// rationale as Has). If any reports it as present (true positive
